@@ -1096,12 +1096,16 @@ def check_C05(ctx):
                        "priority changes, writes, ticks, delay, cancel) on a container with 1-5 (thorough 1-12) bars, queue length "
                        "below/at/above the bar count, pop mode, removal, queued bars, extender rows, width-synchronised markers; "
                        "non-trivial = at least 2 frames; distinct = (configuration, script)")
-    ctx.assumptions = ["height clipping: when the rows do not fit, the bottom-most are drawn (C05 is stated for frames that fit)",
+    ctx.assumptions = ["height clipping: when the rows do not fit, the bottom-most are drawn (C05 is stated for frames that fit); on an "
+                       "output that is not a terminal the width stands in for the height (GenTerm.nonterminal_height_is_the_width)",
                        "queued bars: any number per predecessor, created before or after the predecessor's hand-over"]
     frames_check(ctx, {"CT_FLUSHBAR", "HM_PUSH", "HM_POP", "OUT_ROWS", "OUT_UNEXPECTED", "CT_FRAME", "NOTIFY", "HM_SYNC",
                        "HM_ITERREQ", "CT_ADD", "HM_STATE", "HM_END"},
-                 c05_monitor, 150, 4000, CONT_DEPS | COVER_DEPS | {"GenConst.v", "gen/GenApi.v", "Props/C05.v"},
+                 c05_monitor, 150, 4000, CONT_DEPS | COVER_DEPS | {"GenConst.v", "GenTerm.v", "gen/GenApi.v", "Props/C05.v"},
                  fams=[("frames", 0.7, True), ("faults", 0.3, True)])   # the notifier's list is owed on the error path too
+    ctx.cov["rule"] += ("; opt family (manybars): 68-139 one-row bars on a non-terminal output of width 0 (default 80) or 81-140, fewer bars "
+                        "than columns: every frame shows every bar once")
+    opt_check(ctx, {"manybars"})
 
 
 import monitors as M
@@ -1171,8 +1175,9 @@ def check_C13(ctx):
 @check
 def check_C04(ctx):
     ctx.cov["rule"] = FRAME_RULE + ("; pty family: the container writes to a pseudo terminal of 4-11 rows x 40-79 columns with fewer, one fewer, "
-                                    "exactly as many and more bar row groups than rows (extender rows, pop mode, text lines), and the bytes "
-                                    "are replayed on a terminal of that size with scrollback")
+                                    "exactly as many and more bar row groups than rows (extender rows, pop mode, text lines; every third case: the "
+                                    "window is resized between the creation of the container and its first frame), and the bytes are replayed "
+                                    "on a terminal of that size with scrollback, 'cursor up 0' executed as 'cursor up 1'")
     ctx.assumptions = ["non-terminal output: the library assumes height = width", "the pty replay interprets CR LF, ESC[nA and ESC[J only "
                        "(the only controls the library emits); lines never wrap because C07/C09 bound their width"]
     frames_check(ctx, {"OUT_CUU", "CT_FRAME", "OUT_ROWS", "OUT_UNEXPECTED", "CT_DELAYEND", "OUT_TEXT"}, M.c04_monitor, 200, 6000,
